@@ -141,7 +141,7 @@ def run(ctx) -> None:
             lon = [None if pl[k] in (1, 3) else lon[k] for k in range(n)]
             lat = [None if pl[k] in (2, 3) else lat[k] for k in range(n)]
             sp = speeds(lon, lat, t)
-            pool = [0, 0.5, 3, 100, 1e5, *(s * f for s in sp for f in (0.5, 1.5))]
+            pool = [0, 0.5, 3, 100, 1e5, *(s * f for s in sp for f in (0.5, 1.0, 1.5))]
             st, ft = sorted((rng.choice(pool), rng.choice(pool)))
             if rng.random() < 0.15:
                 st, ft = ft, st
@@ -160,7 +160,7 @@ def run(ctx) -> None:
                 lon[k] = lat[k] = None
         t = gen.irregular(rng, n, steps=(1, 5, 60, 3600, 86400))
         sp = speeds(lon, lat, t)
-        pool = [0, 0.5, 3, 100, 1e5, *(s * f for s in sp for f in (0.5, 0.999, 1.001, 1.5))]
+        pool = [0, 0.5, 3, 100, 1e5, *(s * f for s in sp for f in (0.5, 0.999, 1.0, 1.0, 1.001, 1.5))]
         st, ft = sorted((rng.choice(pool), rng.choice(pool)))
         if kind == "stationary" and rng.random() < 0.5:
             st = ft = 0  # speed exactly on the threshold: must stay GOOD
